@@ -373,14 +373,14 @@ class State:
         self.solver.pop()
         return r, model
 
-    def check(self, name, f, kind="assert", witness_fn=None, detail="", assume_after=True):
+    def check(self, name, f, kind="assert", witness_fn=None, detail="", assume_after=True, literal_ok=False):
         """Emit the obligation pc => f. Afterwards f is assumed (so one failure does not cascade)."""
         t = time.time()
         sb = simplify_bool(f) if z3.is_expr(f) else (True if f is True else None)
         status, backend, wit, mtxt = None, "z3-5.1(api,incremental)", None, ""
         if sb is True:
             status, backend = "discharged", "simplifier"
-        elif sb is False and self.reachable():
+        elif sb is False and literal_ok and self.reachable():
             # the obligation itself is syntactically false (e.g. a ghost/event-order obligation decided by the handler) and the path is
             # feasible as far as the quantifier-free part of the path condition goes: refuted without consulting the heap axioms
             status, backend = "failed", "simplifier (obligation is literally false on a feasible path)"
